@@ -13,6 +13,8 @@ import Driver.Wire
 import Driver.Conf
 import Mdsort.Model.Conf
 import Mdsort.Model.Main
+import Mdsort.Model.MainText
+import Mdsort.Spec.Macro
 import Mdsort.Model.Plan
 import Mdsort.Model.Inspect
 import Mdsort.Model.Lex
@@ -413,9 +415,10 @@ def planScan (prog : Model.Prog (Nat × Model.MainSt)) (w0 : Model.World) (msgs 
     | none => none
   s!"SCAN calls={ncalls} plans={plans.length + doubles.length} bad={(bad ++ bad2).length} {String.intercalate " " ((bad ++ bad2).take 5)}"
 
-def handleConform (args : List Bytes) : String :=
-  match args with
-  | [envB, blocksB, filesB, devsB, input, traceB] =>
+/-- The common part of `conform` and `conformtext`: `mk env orc files` is the program (`none`: the
+configuration argument could not be read) together with "some rule discards" (for `SCAN`). -/
+def conformWith (envB filesB devsB input traceB : Bytes)
+    (mk : Model.PEnv → Bool → Model.EvalOracles → Model.Files → Option (Model.Prog (Nat × Model.MainSt) × Bool)) : String :=
     let ew := Driver.words (Driver.asText envB)
     match ew with
     | [now, pid, host, random, tmpdir, home, confpath, dry, syn, sin, confok] =>
@@ -424,14 +427,6 @@ def handleConform (args : List Bytes) : String :=
         let env : Model.PEnv := { now := (now.toInt?).getD 0, pid := (pid.toNat?).getD 0, host := host, random := (random.toNat?).getD 0,
                                   tmpdir := tmpdir, home := home, confpath := confpath, dryrun := dry == "1", syntaxOnly := syn == "1",
                                   stdinMode := sin == "1" }
-        let blocks : Option (List Model.ConfBlock) := (Driver.lines blocksB).mapM fun l =>
-          match Driver.words l with
-          | "B" :: np :: rest =>
-            let k := (np.toNat?).getD 0
-            match (rest.take k).mapM Driver.unhex, Driver.parseExpr (String.intercalate " " (rest.drop k)) with
-            | some ps, some e => some { paths := ps, expr := e }
-            | _, _ => none
-          | _ => none
         let files : Option Model.Files := (Driver.lines filesB).mapM fun l =>
           match Driver.words l with
           | [d, n, c] => do let d ← Driver.unhex d; let n ← Driver.unhex n; let c ← Driver.unhex c; pure (d, n, c)
@@ -447,8 +442,8 @@ def handleConform (args : List Bytes) : String :=
           match Driver.words l with
           | [p, d] => (Driver.unhex p).map fun p => (p, (d.toNat?).getD 0)
           | _ => none
-        match blocks, files, (if traceB == ofString "SCAN" then some [] else Driver.parseTrace traceB) with
-        | some blocks, some files, some trace =>
+        match files, (if traceB == ofString "SCAN" then some [] else Driver.parseTrace traceB) with
+        | some files, some trace =>
           -- initial abstract file system: every directory named by the files, every file durable
           let dirNames := (files.map (·.1)).eraseDups
           let files := files.filter fun e => !e.2.1.isEmpty
@@ -459,11 +454,12 @@ def handleConform (args : List Bytes) : String :=
             mtimes := indexed.map fun e => (e.2, mtimes.getD e.2 0),
             nextFid := files.length, handles := [.other, .other, .other], devs := devs, trace := [] }
           let orc : Model.EvalOracles := { rx := rxFFI, strptime := strptimeEnv, zoneName := zoneEnv env.now }
-          let prog := Model.mainP env orc (confok == "1") blocks files input
+          match mk env (confok == "1") orc files with
+          | none => "BADSCENARIO"
+          | some (prog, discards) =>
           if traceB == ofString "SCAN" then
             let inMd := files.filter fun e => (ofString "/new").isSuffixOf e.1 || (ofString "/cur").isSuffixOf e.1
-            planScan prog w0 ((if env.stdinMode then [input] else []) ++ inMd.map (·.2.2))
-              (blocks.any fun b => exprAny (fun x => match x with | .discard _ => true | _ => false) b.expr)
+            planScan prog w0 ((if env.stdinMode then [input] else []) ++ inMd.map (·.2.2)) discards
           else
           match Model.conform prog w0 trace 0 with
           | .done (status, st) w rest =>
@@ -474,9 +470,46 @@ def handleConform (args : List Bytes) : String :=
           | .diverge pos exp got =>
             s!"DIVERGE pos={pos} expected=[{Driver.callStr exp}] got=[{match got with | some c => Driver.callStr c | none => "end-of-trace"}]"
           | .impossible pos c r => s!"IMPOSSIBLE pos={pos} call=[{Driver.callStr c}] result=[{Driver.resStr r}]"
-        | _, _, _ => "BADSCENARIO"
+        | _, _ => "BADSCENARIO"
       | _, _, _, _ => "BADENV"
     | _ => "BADENV"
+
+def anyDiscard (blocks : List Model.ConfBlock) : Bool :=
+  blocks.any fun b => exprAny (fun x => match x with | .discard _ => true | _ => false) b.expr
+
+/-- conform <env> <blocks> <files> <devs> <stdin> <trace>: the configuration as the tree the real parser built
+(harness `ast`), the parser's verdict in `<env>`. -/
+def handleConform (args : List Bytes) : String :=
+  match args with
+  | [envB, blocksB, filesB, devsB, input, traceB] =>
+    conformWith envB filesB devsB input traceB fun env confok orc files =>
+      let blocks : Option (List Model.ConfBlock) := (Driver.lines blocksB).mapM fun l =>
+        match Driver.words l with
+        | "B" :: np :: rest =>
+          let k := (np.toNat?).getD 0
+          match (rest.take k).mapM Driver.unhex, Driver.parseExpr (String.intercalate " " (rest.drop k)) with
+          | some ps, some e => some { paths := ps, expr := e }
+          | _, _ => none
+        | _ => none
+      blocks.map fun blocks => (Model.mainP env orc confok blocks files input, anyDiscard blocks)
+  | _ => "BADOP"
+
+/-- conformtext <env> <configuration text> <defs> <files> <devs> <stdin> <trace>: the same run from the TEXT of the
+configuration file (`Model.mainText`: the parser model decides and builds the trees; the verdict word of `<env>` is
+ignored).  `<defs>`: one `-D` option per line, `hex(name) hex(value)`. -/
+def handleConformText (args : List Bytes) : String :=
+  match args with
+  | [envB, confText, defsB, filesB, devsB, input, traceB] =>
+    conformWith envB filesB devsB input traceB fun env _ orc files =>
+      let defs : Option (List (Bytes × Bytes)) := (Driver.lines defsB).mapM fun l =>
+        match Driver.words l with
+        | [n, v] => do let n ← Driver.unhex n; let v ← Driver.unhex v; pure (n, v)
+        | _ => none
+      defs.map fun defs =>
+        let discards := match Model.parseConfig env.home defs rxOkFFI confText with
+          | .ok blocks => (Model.confBlocksOf blocks).elim false anyDiscard
+          | _ => false
+        (Model.mainText env orc rxOkFFI defs confText files input, discards)
   | _ => "BADOP"
 
 def tokStr : Model.Token → String
@@ -521,6 +554,7 @@ def handleMsg (side op : String) (args : List Bytes) : Option String :=
   | "M", "ctype", [] => some ctypeTable
   | "M", "eval", as => some (handleEval as)
   | "M", "conform", as => some (handleConform as)
+  | "M", "conformtext", as => some (handleConformText as)
   | "M", "lex", as => some (handleLex as)
   | "M", "conf", as => some (Driver.Conf.handle rxOkFFI as)
   | "M", "confprint", as => some (Driver.Conf.handlePrint rxOkFFI as)
@@ -613,6 +647,10 @@ def handle (side op : String) (args : List String) : String :=
     | .inl (n, name) => s!"MACRO {n} {toHex name}"
     | .inr false => "NO"
     | .inr true => "INVALID"
+  | "S", "mexpand", some (act :: s :: kvs) =>
+    -- mexpand <0|1 = action context> <string> [<macro name> <value>]*: the documented parse-time expansion
+    let tbl := Driver.Conf.pairs kvs
+    optHex (Spec.mexpand (act == [49]) (fun n => (tbl.find? (·.1 == n)).map (·.2)) s)
   | "M", "nparts", some [m] =>
     match Model.getAttachments (Model.parseMessage m) with
     | none => "NONE"
